@@ -775,8 +775,9 @@ def check_forwarders(run, cx, cfg, only=None):
         run.check(bad is None, 'rb.extend', fn, cfg, bad or '', where=where(body))
 
 
-def check_constructors(run, cx, cfg):
-    """every place that builds a Bounded / Fixed value: inventory + invariant established on every returning path"""
+def check_constructors(run, cx, cfg, only_adts=None):
+    """every place that builds a Bounded / Fixed value: inventory + invariant established on every returning path
+    (`only_adts`: for another property, the constructors of the buffer type its code is handed)"""
     sites = {}
     for b in cx.facts.bodies_in(CRATE):
         for blk in b['blocks']:
@@ -787,6 +788,8 @@ def check_constructors(run, cx, cfg):
     for fn, adts in sorted(sites.items()):
         b = cx.body(fn)
         adt = sorted(adts)[0]
+        if only_adts is not None and adt not in only_adts:
+            continue
         imp = b.get('impl') or {}
         if imp.get('trait') in DERIVED_OK:
             run.ok('rb.constructor', fn, cfg + ':derived-copy', nontrivial=False)
@@ -831,10 +834,12 @@ def check_constructors(run, cx, cfg):
             run.check(bad is None, 'rb.constructor', fn, cfg, bad or '', where=where(b), sample={'paths': len(rets)})
         except (Unknown, T.TooComplex) as u:
             run.unproven('rb.constructor', fn, cfg, 'outside the polyhedra domain: %s' % u, where=where(b))
-    run.floor('rb.constructor', 'safe construction sites (%s)' % cfg, n, 2)
+    run.floor('rb.constructor', 'safe construction sites (%s)' % cfg, n, 2 if only_adts is None else 1)
     # wrappers that only call a checked constructor
     for fn, target, want in (('<dasp_ring_buffer::Bounded<S> as core::convert::From<S>>::from', B + '::<S>::from_raw_parts', [('int', 0, 'usize'), ('int', 0, 'usize'), ('param', 1)]),
                              ('<dasp_ring_buffer::Fixed<S> as core::convert::From<S>>::from', F + '::<S>::from_raw_parts', [('int', 0, 'usize'), ('param', 1)])):
+        if only_adts is not None and not any(target.startswith(a + '::') for a in only_adts):
+            continue
         body = cx.body(fn)
         if body is None:
             run.fail('rb.ctor-wrapper', fn, cfg, 'function not found')
@@ -845,7 +850,7 @@ def check_constructors(run, cx, cfg):
         run.check(ok, 'rb.ctor-wrapper', fn, cfg, 'From must build the empty / zero-offset buffer through the checked constructor', where=where(body))
     fn = B + '::<S>::from_full'
     body = cx.body(fn)
-    if body is not None:
+    if body is not None and (only_adts is None or B in only_adts):
         ps = returning(cx.paths(fn, stop=[B + '::<S>::from_raw_parts']))
         ok = False
         if len(ps) == 1:
@@ -872,12 +877,17 @@ def check_inventory(run, cx, cfg):
     run.floor('rb.unchecked-inventory', 'unchecked element accesses (%s)' % cfg, n, 6)
 
 
-def check_used(run, cx, cfg, roots, minimum):
+def check_used(run, cx, cfg, roots, minimum, handed=None):
     """Re-establish, for another property, the ring-buffer obligations of exactly the ring-buffer functions that the
-    bodies in `roots` reach through the resolved call graph (filed under dep.rb.*)."""
+    bodies in `roots` reach through the resolved call graph (filed under dep.rb.*).  `handed`: the buffer type the
+    property's code is given ready-made by its caller (`signal.buffered(ring)`, `signal.fork(ring)`, `Rms::new(window)`):
+    what it delivers from pre-filled content rests on that type's constructors building exactly the state they are
+    asked for, so their obligations are imported too."""
     from report import Prefixed
     used = callee_closure(cx.facts, roots, CRATE)
     pr = Prefixed(run, 'dep.')
+    if handed:
+        check_constructors(pr, cx, cfg, only_adts=(handed,))
     ns = 0
     for adt in (B, F):
         a, b = check_type(pr, cx, cfg, adt, only=used)
